@@ -63,7 +63,12 @@ def finish(prop, tier, seed, mod, results, herrs, wall, known, extra_lines=()):
         m = r.get("minimized") or r
         path = core.write_replay(prop, r["family"], r["idx"], seed, tier, r, m, r.get("shrink_runs", 0), env.repo_state())
         ok = confirm_replay(path)
-        if ok is None:
+        if ok is None and r["family"] in getattr(mod, "OBSERVATIONAL", ()):
+            # real-scheduler conformance stage: observation of real threads/processes, whose
+            # interleaving the harness does not decide; the worker already re-ran it 5 times
+            print(f"[dst] observational run did not reproduce on replay (its reproduction rate is in the message)")
+            ok = False
+        elif ok is None:
             print(f"HARNESS-ERROR property={prop}: replay {path} did not reproduce in a fresh interpreter")
             return 2
         lines.append(f"VIOLATION property={prop} replay={path}")
